@@ -5,7 +5,7 @@ use kira::effect::distortion::DistortionKind;
 use kira::Frame;
 
 use crate::jobj;
-use crate::probes::{run_effect, FxSpec, SAMPLE_RATES};
+use crate::probes::{run_effect, run_effect_after_rate_change, FxSpec, SAMPLE_RATES};
 use crate::util::{Ctx, Rng, J};
 
 #[derive(Clone, Copy, Debug)]
@@ -250,9 +250,19 @@ fn one_case(ctx: &mut Ctx, idx: u64, r: &mut Rng) {
 				// partition independence
 				let x = gen_signal(r, sig, n, sr, 1.0);
 				let p2 = gen_partition(r, ibs);
-				let y1 = run_effect(&spec, sr, ibs, &x, &part);
-				let y2 = run_effect(&spec, sr, ibs, &x, &p2);
-				let y3 = run_effect(&spec, sr, ibs, &x, &[1]);
+				// one case in four: the instance first lived at another device rate (same warm-up in all three runs), so its
+				// buffers were sized by init() for that rate and resized by on_change_sample_rate()
+				let before = if r.chance(0.25) { Some(*r.pick(&SAMPLE_RATES)).filter(|b| *b != sr) } else { None };
+				let run = |p: &[usize]| match before {
+					Some(b) => run_effect_after_rate_change(&spec, b, sr, ibs, &x, p),
+					None => run_effect(&spec, sr, ibs, &x, p),
+				};
+				if before.is_some() {
+					ctx.count("partition_cases_after_a_sample_rate_change", 1);
+				}
+				let y1 = run(&part);
+				let y2 = run(&p2);
+				let y3 = run(&[1]);
 				if first_bad(&y1).is_some() {
 					return Some((format!("{}: non-finite output", spec.kind_name()), detail("finite")));
 				}
